@@ -571,6 +571,12 @@ top:
 			lexer.state = LexerNormal
 			return nil
 		}
+		if r == '*' {
+			// "**": the earlier star is comment text, this one may
+			// still be the star of the closing "*/"
+			_, err := lexer.buffer.WriteRune('*')
+			return err
+		}
 		_, err := lexer.buffer.WriteRune('*')
 		if err != nil {
 			return err
